@@ -196,4 +196,42 @@ theorem goAwayNowData_inv (c : Conn) (e : Reason) (d : Bytes) (h : GoAwayInv c) 
     dsimp only
     rw [r2]; rfl
 
+-- ===================================================================== the initial states
+
+theorem view_modRecv_flow (s : Streams) (fl : FlowControl) :
+    view (s.modRecv fun rc => { rc with flow := fl }) = view s := rfl
+
+theorem view_setTargetConnectionWindow' (s : Streams) (n : Nat) : view (s.setTargetConnectionWindow n).1 = view s := by
+  have hite : ∀ (c : Prop) [Decidable c] (a b : Streams), view (if c then a else b) = if c then view a else view b := by
+    intro c _ a b; split <;> rfl
+  unfold Streams.setTargetConnectionWindow
+  (repeat' split) <;> simp [view_modRecv_flow, hite]
+
+theorem GoAwayInv.of_fresh {c : Conn} (h1 : c.goAway.goingAway = none) (h2 : c.goAway.pending = none)
+    (h3 : c.goAway.closeNow = false) (h4 : (view c.streams).lpi = 0) (h5 : (view c.streams).rmax = STREAM_ID_MAX) :
+    GoAwayInv c := by
+  constructor
+  · rw [h4]; exact Nat.zero_le _
+  · intro ga hga; rw [h1] at hga; cases hga
+  · intro ga hga; rw [h1] at hga; cases hga
+  · intro _; exact h5
+  · intro f hf; rw [h2] at hf; cases hf
+  · intro hc; rw [h3] at hc; cases hc
+
+/-- the invariant holds for a fresh client connection, whatever the builder options -/
+theorem goAwayInv_init (g : Conn.Cfg) : GoAwayInv (Conn.init g) := by
+  unfold Conn.init
+  dsimp only
+  split
+  · apply GoAwayInv.of_fresh <;> first | rfl | (unfold Conn.setTargetWindowSize; dsimp only; rw [view_setTargetConnectionWindow']; rfl)
+  · apply GoAwayInv.of_fresh <;> rfl
+
+/-- … and for a fresh server connection -/
+theorem goAwayInv_initServer (g : Conn.Cfg) (ecp : Bool) (peer : Bytes) : GoAwayInv (Conn.initServer g ecp peer) := by
+  unfold Conn.initServer
+  dsimp only
+  split
+  · apply GoAwayInv.of_fresh <;> first | rfl | (unfold Conn.setTargetWindowSize; dsimp only; rw [view_setTargetConnectionWindow']; rfl)
+  · apply GoAwayInv.of_fresh <;> rfl
+
 end H2V.Lemmas.ConnCtlP
